@@ -1,5 +1,6 @@
 import Mouette.Model.PySrc
 import Mouette.Model.Features
+import Mouette.Model.SurfSource
 /-
 Vocabulary of the C15 feature-detector fragments TRANSLATED from `mouette/processing/features.py`
 (`Generated/C15Feat.lean`).  Core Lean only.
@@ -66,5 +67,16 @@ def intGet (m : IntMap) (k : Nat) : Int := ((m.find? fun e => e.1 == k).map (·.
 /-- the angle sum the loop over `vertex_to_faces(v)` accumulates -/
 def angleSum (cenv : CornerEnv) (v : Nat) : Rat :=
   (cenv.vertexToFaces v).foldl (fun s T => s + cenv.angle (cenv.cornerInFace v T)) 0
+
+/-! `run()` containers -/
+abbrev DegMap := List (Nat × Nat)             -- `feature_degrees` (Attribute(int), default 0): `Features.bump` is `+= 1`
+abbrev LocDict := List (Nat × List Nat)       -- `local_feat_edges`, most recent write first
+/-- `self.local_feat_edges[k].append(i)`: the list bound to `k` (most recent binding) gets `i` at its end -/
+def locAppend : LocDict → Nat → Nat → LocDict
+  | [], _, _ => []
+  | (k', l) :: rest, k, i => if k' == k then (k', l ++ [i]) :: rest else (k', l) :: locAppend rest k i
+def locGet (d : LocDict) (k : Nat) : Option (List Nat) := (d.find? fun e => e.1 == k).map (·.2)
+/-- iterating an attribute used as a set of flagged keys: each key once, in the order it was first flagged -/
+def boolKeys (m : Mouette.PySrc.BoolMap) : List Nat := m.foldl Mouette.SurfSource.setAdd []
 
 end Mouette.FeatSource
